@@ -1,6 +1,6 @@
 (** all-step: the debugger stays in step mode; the prompted line events are exactly the line events of
     frames that had an accepted call event. *)
-From NL Require Import Bdb.Model Bdb.Basics.
+From NL Require Import Bdb.Model Bdb.Basics Bdb.Filters.
 Open Scope Z_scope.
 Open Scope list_scope.
 
@@ -151,3 +151,56 @@ Proof.
   apply (run_from_step_lines c evs 0%nat (init c) []).
   split; [unfold stepmode; simpl; auto|]. intros f. simpl. split; discriminate.
 Qed.
+
+(** ---- the same specification written with the event's own attributes only ([accept_attr], Filters.v):
+    no plugin, no registration order, no pluggy *)
+Fixpoint step_spec_attr (c : cfg) (i : nat) (fs : fstate) (acc : list Z) (evs : list event) : list nat :=
+  match evs with
+  | [] => []
+  | e :: r =>
+      match e_kind e with
+      | KCall => let '(ok, fs') := accept_attr c e fs in step_spec_attr c (S i) fs' (if ok then e_fid e :: acc else acc) r
+      | KLine => if existsb (Z.eqb (e_fid e)) acc then i :: step_spec_attr c (S i) fs acc r else step_spec_attr c (S i) fs acc r
+      | _ => step_spec_attr c (S i) fs acc r
+      end
+  end.
+
+Lemma step_spec_attr_eq : forall c evs i fs acc, step_spec c i fs acc evs = step_spec_attr c i fs acc evs.
+Proof.
+  induction evs as [|e r IH]; intros i fs acc; [reflexivity|]. simpl.
+  destruct (e_kind e); try (rewrite IH; reflexivity).
+  rewrite filter_complete. destruct (accept_attr c e fs) as [ok fs']. simpl. destruct ok; simpl; apply IH.
+Qed.
+
+(** module tracing off: no state at all -- the lines of the frames entered by a call in the script module, not in a lambda *)
+Fixpoint script_lines (i : nat) (acc : list Z) (evs : list event) : list nat :=
+  match evs with
+  | [] => []
+  | e :: r =>
+      match e_kind e with
+      | KCall => script_lines (S i) (if (match e_mc e with MScript => negb (e_lam e) | _ => false end) then e_fid e :: acc else acc) r
+      | KLine => if existsb (Z.eqb (e_fid e)) acc then i :: script_lines (S i) acc r else script_lines (S i) acc r
+      | _ => script_lines (S i) acc r
+      end
+  end.
+
+Lemma step_spec_attr_off : forall c evs i fs acc,
+  c_modules c = false -> step_spec_attr c i fs acc evs = script_lines i acc evs.
+Proof.
+  induction evs as [|e r IH]; intros i fs acc M; [reflexivity|]. simpl.
+  destruct (e_kind e); try (apply IH; exact M).
+  - unfold accept_attr. rewrite M. apply IH; exact M.
+  - destruct (existsb _ _); rewrite IH; auto.
+Qed.
+
+Theorem step_lines_attr : forall c evs,
+  stream_traced c = true ->
+  map p_idx (filter (fun p => match p_kind p with KLine => true | _ => false end) (prompts c (all Step) evs))
+  = step_spec_attr c 0%nat (s_filter (init c)) [] evs.
+Proof. intros c evs T. rewrite step_lines by exact T. apply step_spec_attr_eq. Qed.
+
+Theorem step_lines_off : forall c evs,
+  stream_traced c = true -> c_modules c = false ->
+  map p_idx (filter (fun p => match p_kind p with KLine => true | _ => false end) (prompts c (all Step) evs))
+  = script_lines 0%nat [] evs.
+Proof. intros c evs T M. rewrite step_lines_attr by exact T. apply step_spec_attr_off. exact M. Qed.
